@@ -1,4 +1,6 @@
 // vdriver runs one family's driver against the real code built from /repo's working tree.
+// Families register themselves (common.Register) and are linked in by cmd/vdriver/reg_<family>.go,
+// each guarded by the build tag fam_<family> so that one broken family cannot break the others.
 package main
 
 import (
@@ -6,28 +8,17 @@ import (
 	"os"
 
 	"verif/harness/common"
-	"verif/harness/drivers/ledger"
 )
-
-var families = map[string]func(common.Args){
-	"ledger": ledger.Run,
-}
 
 func main() {
 	if len(os.Args) < 2 {
 		fmt.Fprintln(os.Stderr, "usage: vdriver <family> --out DIR [flags]")
 		os.Exit(2)
 	}
-	f, ok := families[os.Args[1]]
+	f, ok := common.Lookup(os.Args[1])
 	if !ok {
-		fmt.Fprintln(os.Stderr, "unknown family", os.Args[1])
+		fmt.Fprintln(os.Stderr, "unknown family (not linked in?):", os.Args[1])
 		os.Exit(2)
 	}
-	defer func() {
-		if r := recover(); r != nil {
-			fmt.Fprintf(os.Stderr, "HARNESS-ERROR: driver panic: %v\n", r)
-			panic(r)
-		}
-	}()
 	f(common.Parse(os.Args[1:]))
 }
